@@ -97,7 +97,7 @@ def ob_encrypt_asn1(mlen, c1c3c2):
                 cap = {}
                 def enc(ex_, argv):
                     cap["comp"] = argv[2]; cap["model"] = argv[3]
-                    n = 65 + 32 + mlen
+                    n = (33 if (argv[2].conc() and argv[2].v) else 65) + 32 + mlen
                     ct = sym_bytes(dom, "ct", n); cap["ct"] = ct
                     return Agg([Agg(list(ct), name="Vec")], 0, "Result::Ok")
                 ex.summaries = {"Sm2PublicKey::encrypt": enc}
@@ -111,8 +111,12 @@ def ob_encrypt_asn1(mlen, c1c3c2):
             for ctx, (dom, A, cap, r) in live_paths(paths):
                 if not result_ok(r):
                     raise Violation("encrypt_asn1 fails for a well-formed message")
-                if not (cap["comp"].conc() and cap["comp"].v is False):
-                    raise Inconclusive("structure not recognised (no verdict): " + "the raw ciphertext must be produced with the uncompressed C1 (both coordinates are encoded)")
+                if not cap["comp"].conc():
+                    raise Inconclusive("structure not recognised (no verdict): the compression flag handed to encrypt is symbolic")
+                if cap["comp"].v:
+                    # a compressed raw ciphertext does not contain C1.y: the comparison below is then made against a 33-byte C1 and fails
+                    # unless the code recovers y some other way (not recognised here)
+                    pass
                 if cap["model"].variant != (1 if c1c3c2 else 0):
                     raise Inconclusive("structure not recognised (no verdict): " + "component order not passed on to encrypt")
                 ct = [dom.term(b) for b in cap["ct"]]
@@ -230,6 +234,19 @@ def ob_from_byte_lengths(L):
         for ctx, (dom, W, (TO, FPM, FPA, FPS, SQRT, SQRT_OK), b, r) in live_paths(paths):
             hy = ctx.facts + ctx.pc
             bt = [dom.term(x) for x in b]
+            if not result_ok(r) and L in (33, 65):
+                # completeness: a well-formed encoding (right tag, canonical coordinates, and for the compressed form an x on the curve)
+                # must decode - independent encryptors / key generators produce exactly those
+                flag = bt[0]
+                Pv = z3.BitVecVal(P2, 256)
+                if L == 65:
+                    bad = z3.Or(flag != 4, z3.UGE(z3.Concat(*bt[1:33]), Pv), z3.UGE(z3.Concat(*bt[33:65]), Pv))
+                else:
+                    xm = TO(z3.Concat(*bt[1:33]))
+                    A_, B_ = [u256_term(dom, ex_const(c, dom, ctx, n_)) for n_ in ("SM2_MODP_MONT_A", "SM2_MODP_MONT_B")]
+                    yy = FPA(FPA(FPM(FPM(xm, xm), xm), FPM(xm, A_)), B_)
+                    bad = z3.Or(z3.And(flag != 2, flag != 3), z3.UGE(z3.Concat(*bt[1:33]), Pv), z3.Not(SQRT_OK(yy)))
+                discharge(stats, hy, bad, "from_byte rejects a %d-byte encoding only for a wrong tag, a coordinate >= p%s" % (L, "" if L == 65 else " or an x with no point on the curve"))
             if result_ok(r):
                 if L not in (33, 65):
                     raise Violation("Point::from_byte accepts a %d-byte encoding" % L)
@@ -281,6 +298,8 @@ def ob_pubkey_new_validates():
                 t = bytes_term(dom, b)
                 if result_ok(r):
                     discharge(stats, ctx.facts + ctx.pc, z3.And(FBOK(t), W.VALID(FB(t))), "%s accepts only encodings that decode to a point satisfying the curve equation" % fname)
+                else:
+                    discharge(stats, ctx.facts + ctx.pc, z3.Or(z3.Not(FBOK(t)), z3.Not(W.VALID(FB(t)))), "%s rejects only encodings that do not decode or are off the curve" % fname)
         return {}
     return run_obligation("public_key_constructor_validates", ["gm_sm2::key::Sm2PublicKey::new"], "all 65-byte encodings", body, ["Point::from_byte, Point::is_valid -> uninterpreted (from_byte_len_*, C11)"])
 
@@ -380,6 +399,12 @@ def ob_private_key_bytes():
                     discharge(stats, ctx.facts + ctx.pc, d == z3.Concat(*[dom.term(x) for x in b]), "private scalar is the big-endian integer of the 32 bytes")
                     back = ex.run_fn(c.find("Sm2PrivateKey::to_bytes_be"), [Ref(Cell(sk, "sk"))])
                     discharge(stats, ctx.facts + ctx.pc, z3.And([dom.term(a) == dom.term(x) for a, x in zip(back.f, b)]), "to_bytes_be(new(bytes)) == bytes")
+                elif L == 32:
+                    # completeness: every d in [1, n-2] whose public point [d]G is valid is accepted
+                    dv = z3.Concat(*[dom.term(x) for x in b])
+                    N2_ = 0xFFFFFFFEFFFFFFFFFFFFFFFFFFFFFFFF7203DF6B21C6052B53BBF40939D54123
+                    discharge(stats, ctx.facts + ctx.pc, z3.Or(dv == 0, z3.UGT(dv, z3.BitVecVal(N2_ - 2, 256)), z3.Not(W.VALID(W.GMUL(dv)))),
+                              "Sm2PrivateKey::new rejects 32 bytes only for d = 0, d > n-2, or an invalid public point")
         return {}
     return run_obligation("private_key_bytes_roundtrip", ["gm_sm2::key::Sm2PrivateKey::new", "gm_sm2::key::Sm2PrivateKey::to_bytes_be"], "byte strings of 0, 31, 32, 33 bytes", body,
                           ["g_mul, is_valid -> uninterpreted"])
